@@ -58,10 +58,13 @@ def bits(idx):
 def configs(prop, tier):
     th = tier == "thorough"
     if prop == "C15":
-        vals = bits([0, 15]) if not th else bits([0, 1, 15])
         base = dict(Ops0=["cls", "pres"], RegOps=["evq", "condq", "enabq", "ptrq", "ntrq"],
-                    RegWrites=["enab", "ptr", "ntr", "setcond"], RegVals=vals)
+                    RegWrites=["enab", "ptr", "ntr", "setcond"], RegVals=bits([0, 15]))
         cs = [("oper", dict(base, Regs=["OPER"])), ("ques", dict(base, Regs=["QUES"]))]
+        if th:
+            # three model bits (two ordinary + bit 15); replayed on four rotations instead of fifteen
+            cs.append(("oper3", dict(base, Regs=["OPER"], RegVals=bits([0, 1, 15]))))
+            cs.append(("ques3", dict(base, Regs=["QUES"], RegVals=bits([0, 1, 15]))))
         # full-width in-range writes on both register sets (out-of-range writes are judged in the trace direction,
         # where the error the library chooses is bound from the observation instead of being fixed by the model)
         cs.append(("range", dict(Ops0=["errq"], RegOps=["enabq", "ptrq", "ntrq"], RegWrites=["enab", "ptr", "ntr"],
@@ -150,7 +153,7 @@ def run(chk, tier, seed, prop=None):
         res = run_mc(f"{prop}-edges-{name}", c, emit=True, check=False, raw_out=ep)
         require_clean(res, f"MCStatus[{name}] emission")
         chk.add_tlc(f"MCStatus[{name}] edges", res, "edge emission")
-        rlist = rots if name in ("oper", "ques") else [0]
+        rlist = rots if name in ("oper", "ques") else ([0, 4, 9, 13] if name in ("oper3", "ques3") else [0])
         out, _, _ = harness(["status-edges", "--edges", ep, "--rots", ",".join(map(str, rlist))])
         summary = None
         for line in out.splitlines():
